@@ -168,6 +168,9 @@ pub struct ExpTid {
 }
 
 fn tok_matches(want: &str, got: &str) -> bool {
+    if let Some(alts) = want.strip_prefix("oneof:") {
+        return alts.split("||").any(|a| tok_matches(a, got));
+    }
     if let Some(rest) = want.strip_prefix("err:{") {
         let set = rest.trim_end_matches('}');
         if let Some(code) = got.strip_prefix("err:") {
@@ -436,7 +439,13 @@ impl PModel {
                     None => next.core.ls(&None),
                     Some(p) => next.core.pls(p),
                 };
-                answer(&mut exp, read_answer(a, &|p| vec![format!("ls:{p}")]));
+                let mut toks = read_answer(a, &|p| vec![format!("ls:{p}")]);
+                // the statements do not say what a multi-level wildcard means in a parent pattern: the
+                // server refuses it where its traversal reaches it and finds no parent otherwise
+                if l.parent_pattern.as_deref().is_some_and(|p| p.split('/').any(|s| s == "#")) {
+                    toks = vec![format!("oneof:{}||ls:[]", toks[0])];
+                }
+                answer(&mut exp, toks);
                 None
             }
             CM::Set(m) => Some(Op::Set(c, m.key.clone(), m.value.clone())),
